@@ -889,6 +889,7 @@ func checkIn(cfg checkCfg, scratch string, t0 time.Time) int {
 	keys := append([]string(nil), ag.vorder...)
 	sort.Strings(keys)
 	minDeadline := time.Now().Add(time.Duration(cfg.minimiseS * float64(time.Second)))
+	var undecided []string
 	for _, k := range keys {
 		v := ag.violations[k]
 		if v == nil {
@@ -899,10 +900,14 @@ func checkIn(cfg checkCfg, scratch string, t0 time.Time) int {
 			continue
 		}
 		if (v.Class == "deadlock" || v.Class == "no-progress") && len(b.Instr.Unseamed) > 0 {
-			fail2("a task stopped making progress (%s: %s), but the library uses constructs whose wake-ups the simulator does not control (%v): the stall may be the simulator's, not the library's - cannot decide", v.Class, oneLine(v.Detail, 200), b.Instr.Unseamed)
+			undecided = append(undecided, fmt.Sprintf("a task stopped making progress (%s: %s), but the library uses constructs whose wake-ups the simulator does not control (%v): the stall may be the simulator's, not the library's - cannot decide", v.Class, oneLine(v.Detail, 200), b.Instr.Unseamed))
+			continue
 		}
 		if v.Class == "no-progress" && v.Engine == "sim" && sequentialAlsoStalls(sp, v) {
-			fail2("an operation exceeds the per-operation step budget even when the tasks run one after the other without preemption (%s); the budget is too small for this tree - a harness limit, not a progress violation", oneLine(v.Detail, 200))
+			// not judged; undecidable on its own, but it does not take back the
+			// other findings of this run
+			undecided = append(undecided, fmt.Sprintf("an operation exceeds the per-operation step budget even when the tasks run one after the other without preemption (%s); the budget is too small for this tree - a harness limit, not a progress violation", oneLine(v.Detail, 200)))
+			continue
 		}
 		nviol++
 		if nviol > 8 {
@@ -917,7 +922,13 @@ func checkIn(cfg checkCfg, scratch string, t0 time.Time) int {
 
 	writeEvidence(cfg, b, ag, corpusSummary, simWall, time.Since(t0).Seconds(), detChecked, len(detMismatch), nviol, reported)
 	if nviol > 0 {
+		for _, u := range undecided {
+			fmt.Println("vsim: note (not judged):", u)
+		}
 		return 1
+	}
+	if len(undecided) > 0 {
+		fail2("%s", undecided[0])
 	}
 	fmt.Printf("vsim: %s held on everything explored (%d runs, %d distinct non-trivial schedules)\n", propertyID, ag.runs, len(ag.nontrivFP))
 	return 0
